@@ -141,7 +141,10 @@ func (f *compressFilter) Do(cmd string, req *simpleRequest) FilterStatus {
 		req.SetResponse(newError(errStr))
 		return Stop
 	}
-	f.Compress(cfg, cmd, req.body)
+	if !req.compressed {
+		f.Compress(cfg, cmd, req.body)
+		req.compressed = true
+	}
 	return Continue
 }
 
